@@ -22,6 +22,7 @@ func propC09() *Property {
 			{ID: "C09.R4", Title: "authors live on the post's host", Floor: 1, Run: c09R4},
 			{ID: "C09.R5", Title: "identifier accessors return validated ids only", Floor: 5, Run: c09R5},
 			{ID: "C09.R6", Title: "checked replies and timeline entries are added to the page they were loaded for (same instances as C08.R9)", Floor: 8, Run: c08R9},
+			{ID: "C09.R7", Title: "the ids the gatekeepers compare are ids the documents carry: FetchUnknown never invents one (same instances as C02.R3)", Floor: 4, Run: c02R3},
 		},
 	}
 }
